@@ -6,6 +6,7 @@ package dht
 // C02 — lookups converge on the true closest peers and contact all of them.
 
 import (
+	"errors"
 	"context"
 	"crypto/sha256"
 	"fmt"
@@ -29,6 +30,7 @@ type lookupObs struct {
 	Seeds     []peer.ID // the K nearest routing-table peers when the lookup began
 	RTBefore  []peer.ID
 	Returned  time.Duration
+	Started   time.Duration
 	CplBefore time.Time
 	CplAfter  time.Time
 	Outcome   verifsim.BubbleOutcome
@@ -59,7 +61,21 @@ func runGetClosest(t *testing.T, s *lkSc) lookupObs {
 		ectx, ch := RegisterForLookupEvents(ctx)
 		get, done := collectEvents(env.sim, ch)
 		time.Sleep(time.Second) // the lookup starts at a virtual instant later than construction
-		obs.Result, obs.Err = env.d.GetClosestPeers(ectx, key)
+		// events are registered on the outer context so that they keep flowing when the caller cancels the lookup itself
+		lctx, lcancel := context.WithCancel(ectx)
+		defer lcancel()
+		if s.CancelMs > 0 {
+			go func() {
+				select {
+				case <-time.After(time.Duration(s.CancelMs) * time.Millisecond):
+					lcancel()
+				case <-lctx.Done():
+				}
+			}()
+		}
+		obs.Started = env.sim.Now()
+		obs.Result, obs.Err = env.d.GetClosestPeers(lctx, key)
+		lcancel()
 		obs.Returned = env.sim.Now()
 		verifsim.Quiesce()
 		tr = env.d.RoutingTable().GetTrackedCplsForRefresh()
@@ -161,6 +177,7 @@ type lookupFacts struct {
 	nTerminate  int
 	hops2       bool
 	lying       bool
+	cancelled   bool
 }
 
 // judgeLookup checks the C01 clauses and extracts the facts the C02 clauses need.
@@ -182,10 +199,11 @@ func judgeLookup(s *lkSc, obs lookupObs, res *verifsim.Result) *lookupFacts {
 		}
 		return nil
 	}
-	if obs.Err != nil {
+	if obs.Err != nil && !(s.CancelMs > 0 && errors.Is(obs.Err, context.Canceled)) {
 		res.Fail("no-error", "C01/lookup/error", "uncancelled lookup returned error %v", obs.Err)
 		return nil
 	}
+	f.cancelled = obs.Err != nil
 	for _, p := range obs.Seeds {
 		f.learned[p] = true
 	}
@@ -200,6 +218,27 @@ func judgeLookup(s *lkSc, obs lookupObs, res *verifsim.Result) *lookupFacts {
 		if e.Kind == "request" {
 			if _, ok := firstReq[e.Peer]; !ok {
 				firstReq[e.Peer] = e
+			}
+		}
+	}
+	// An interrupted lookup publishes with a cancelled context: whatever it publishes at or after the instant of cancellation
+	// may be dropped (the event channel gives up when the publisher's context is done), and whether an answer or failure that
+	// arrives at that very instant is still processed is a coin toss. Both are allowed; they make the facts of that one instant
+	// ambiguous, not wrong.
+	ambLearned, ambFailed := map[peer.ID]bool{}, map[peer.ID]bool{}
+	if f.cancelled {
+		cancelAt := obs.Started + time.Duration(s.CancelMs)*time.Millisecond
+		for i := range obs.Log {
+			e := &obs.Log[i]
+			if e.End != cancelAt {
+				continue
+			}
+			if e.Kind == "request" && e.Outcome == "ok" {
+				for _, h := range expectedHeard(s, e.Resp) {
+					ambLearned[h] = true
+				}
+			} else {
+				ambFailed[e.Peer] = true
 			}
 		}
 	}
@@ -220,7 +259,7 @@ func judgeLookup(s *lkSc, obs lookupObs, res *verifsim.Result) *lookupFacts {
 					res.Fail("events/request-once", "C01/events/request-twice", "peer %s asked twice in one lookup", shortID(p))
 				}
 				requested[p] = te.At
-				if !f.learned[p] {
+				if !f.learned[p] && !ambLearned[p] {
 					res.Fail("events/request-learned", "C01/events/request-unlearned", "request to %s which was not learned before", shortID(p))
 				}
 				ft := firstTouch[p]
@@ -260,6 +299,9 @@ func judgeLookup(s *lkSc, obs lookupObs, res *verifsim.Result) *lookupFacts {
 						ok = true
 					}
 				}
+				if ambFailed[p] {
+					ok = true // the request was aborted by the caller's cancellation at this very instant and the lookup still got to see that
+				}
 				if !ok {
 					res.Fail("events/unreachable-real", "C01/events/unreachable-without-failure", "Unreachable event for %s at %v but the simulation logged no failure", shortID(p), te.At)
 				}
@@ -272,6 +314,9 @@ func judgeLookup(s *lkSc, obs lookupObs, res *verifsim.Result) *lookupFacts {
 				}
 			}
 		}
+	}
+	if f.cancelled && f.nTerminate == 0 {
+		f.nTerminate, f.terminateAt, f.reason = 1, obs.Started+time.Duration(s.CancelMs)*time.Millisecond, LookupCancelled
 	}
 	if f.nTerminate != 1 {
 		res.Fail("events/one-terminate", "C01/events/terminate-count", "%d Terminate events", f.nTerminate)
@@ -309,7 +354,7 @@ func judgeLookup(s *lkSc, obs lookupObs, res *verifsim.Result) *lookupFacts {
 		if i > 0 && !distLess(target, r[i-1], p) {
 			res.Fail("result/ascending", "C01/result/order", "result not strictly ascending at %d: %v", i, shortIDs(r))
 		}
-		if !f.learned[p] {
+		if !f.learned[p] && !ambLearned[p] {
 			res.Fail("result/learned", "C01/result/unlearned", "returned peer %s was neither a seed nor named in a processed answer", shortID(p))
 		}
 		if f.failed[p] {
@@ -320,7 +365,7 @@ func judgeLookup(s *lkSc, obs lookupObs, res *verifsim.Result) *lookupFacts {
 		}
 	}
 	for x := range f.learned {
-		if x == self || f.failed[x] || seen[x] {
+		if x == self || f.failed[x] || seen[x] || ambFailed[x] {
 			continue
 		}
 		if len(r) < s.K {
@@ -525,6 +570,45 @@ func TestVerif_C01_Adversarial(t *testing.T) {
 			}
 			if f.hops2 {
 				res.Class("multi-hop")
+			}
+			res.Class("reason-" + f.reason.String())
+			return
+		},
+	})
+}
+
+// C01 for interrupted lookups: the caller cancels the context at a drawn virtual instant; what GetClosestPeers hands back with
+// the context error is still held to every result clause (at most K, distinct, no self, ascending, learned, not failed, the
+// nearest of the learned non-failed set at the moment the search ended) and the events to the simulation log.
+func TestVerif_C01_Cancelled(t *testing.T) {
+	verifsim.RunCheck(t, verifsim.Check[lkSc]{
+		Property: "C01", Part: "cancelled",
+		Rule: "rapid: the adversarial generator (1-40 peers, faults, liars, filters) plus a cancellation of the caller's context 1-8000 ms after the lookup started (latencies are 1-3000 ms, request timeouts 10 s); " +
+			"oracle = the C01 result and event clauses over whatever is returned together with the context error; non-trivial = the lookup was really interrupted (context error returned) after at least one peer had failed " +
+			"or more than K peers had been learned",
+		Gen: func(t *rapid.T) lkSc {
+			s := genAdversarial(t)
+			if rapid.Bool().Draw(t, "hotCancel") {
+				s.CancelMs = rapid.SampledFrom([]int{1, 50, 301, 700, 1500, 3001, 6000}).Draw(t, "cancelMs")
+			} else {
+				s.CancelMs = rapid.IntRange(1, 8000).Draw(t, "cancelMs")
+			}
+			return s
+		},
+		Run: func(t *testing.T, s lkSc) (res verifsim.Result) {
+			obs := runGetClosest(t, &s)
+			f := judgeLookup(&s, obs, &res)
+			if f == nil {
+				return
+			}
+			res.NonTrivial = f.cancelled && (len(f.failed) > 0 || len(f.learned) > s.K)
+			if f.cancelled {
+				res.Class("interrupted")
+			} else {
+				res.Class("completed-before-cancel")
+			}
+			if len(f.failed) > 0 {
+				res.Class("failed-peer")
 			}
 			res.Class("reason-" + f.reason.String())
 			return
